@@ -10,13 +10,28 @@ from .core import AnalysisError
 from .model import Repo, calls_in, call_name, norm, walk_no_nested
 
 
+def recognizer_names(repo: Repo, base: str) -> Tuple[str, ...]:
+    """The generated recognizer class `base` and every hand-written subclass of it (a subclass is still that recognizer)."""
+    out = [base]
+    for ci in repo.classes.values():
+        if ci.name != base:
+            try:
+                if any(k.name == base for k in repo.mro(ci.name)) or base in ci.bases:
+                    out.append(ci.name)
+            except Exception:
+                if base in ci.bases:
+                    out.append(ci.name)
+    return tuple(dict.fromkeys(out))
+
+
 def documenter_class(repo: Repo) -> str:
     """The class of cminx.documenter that builds the lexer and the parser."""
     m = repo.module("cminx.documenter")
+    lex, par = recognizer_names(repo, "CMakeLexer"), recognizer_names(repo, "CMakeParser")
     for node in m.tree.body:
         if isinstance(node, ast.ClassDef):
             txt = [call_name(c).split(".")[-1] for c in ast.walk(node) if isinstance(c, ast.Call)]
-            if "CMakeLexer" in txt and "CMakeParser" in txt:
+            if any(x in txt for x in lex) and any(x in txt for x in par):
                 return node.name
     raise AnalysisError("anchor vanished: no class in cminx.documenter constructs CMakeLexer and CMakeParser")
 
